@@ -67,6 +67,37 @@ fn bnd_error_code_filter_2_3() {
     filter_case::<2, 3>();
 }
 
+// @harness id=bnd_error_code_filter_1_1 props=C16,C04 kind=bnd tier=thorough bound=code=1digits,filter=1digits fns=match_error_code
+#[kani::proof]
+#[kani::unwind(10)]
+fn bnd_error_code_filter_1_1() {
+    filter_case::<1, 1>();
+}
+// @harness id=bnd_error_code_filter_1_3 props=C16,C04 kind=bnd tier=thorough bound=code=1digits,filter=3digits fns=match_error_code
+#[kani::proof]
+#[kani::unwind(10)]
+fn bnd_error_code_filter_1_3() {
+    filter_case::<1, 3>();
+}
+// @harness id=bnd_error_code_filter_3_1 props=C16,C04 kind=bnd tier=thorough bound=code=3digits,filter=1digits fns=match_error_code
+#[kani::proof]
+#[kani::unwind(10)]
+fn bnd_error_code_filter_3_1() {
+    filter_case::<3, 1>();
+}
+// @harness id=bnd_error_code_filter_3_2 props=C16,C04 kind=bnd tier=thorough bound=code=3digits,filter=2digits fns=match_error_code
+#[kani::proof]
+#[kani::unwind(10)]
+fn bnd_error_code_filter_3_2() {
+    filter_case::<3, 2>();
+}
+// @harness id=bnd_error_code_filter_3_3 props=C16,C04 kind=bnd tier=thorough bound=code=3digits,filter=3digits fns=match_error_code
+#[kani::proof]
+#[kani::unwind(10)]
+fn bnd_error_code_filter_3_3() {
+    filter_case::<3, 3>();
+}
+
 struct ShowRec {
     marker: u64,
     shown: u32,
